@@ -62,12 +62,14 @@ pub(crate) enum Act {
     Move(char, char),
     /// create a typed cell (lock X, type T) from the most recent live cell of X
     Typed(char),
+    /// spend the most recent live typed cell of lock X and create a plain cell for script Y
+    Untype(char, char),
 }
 
 /// Appends blocks `from+1 ..= to` to `chain`; `acts` lists (block number, activity).
 pub(crate) fn extend_chain(chain: &mut Chain, scripts: &Scripts, to: u64, acts: &[(u64, Act)]) {
     // live cells per script name, most recent last
-    let mut live: Vec<(char, packed::OutPoint, u64)> = vec![];
+    let mut live: Vec<(char, packed::OutPoint, u64, bool)> = vec![];
     // recover live cells created by earlier Mine acts is not needed: callers pass all acts for
     // the whole chain and extend from genesis or from a fork point with their own acts.
     let start = chain.tip_number() + 1;
@@ -83,21 +85,35 @@ pub(crate) fn extend_chain(chain: &mut Chain, scripts: &Scripts, to: u64, acts: 
                     mined = Some(*x);
                 }
                 Act::Move(x, y) => {
-                    if let Some(pos) = live.iter().rposition(|(name, _, _)| name == x) {
-                        let (_, op, cap) = live.remove(pos);
+                    // (plain cells only: a typed cell is spent by Untype)
+                    if let Some(pos) = live.iter().rposition(|(name, _, _, typed)| name == x && !typed) {
+                        let (_, op, cap, _) = live.remove(pos);
                         let tx = build_tx(
                             &[scripts.always_dep.clone()],
                             &[op],
                             &[OutSpec::lock(&scripts.by_name(*y), cap - 1000)],
                             n,
                         );
-                        live.push((*y, packed::OutPoint::new(tx.hash(), 0), cap - 1000));
+                        live.push((*y, packed::OutPoint::new(tx.hash(), 0), cap - 1000, false));
+                        txs.push(tx);
+                    }
+                }
+                Act::Untype(x, y) => {
+                    if let Some(pos) = live.iter().rposition(|(name, _, _, typed)| name == x && *typed) {
+                        let (_, op, cap, _) = live.remove(pos);
+                        let tx = build_tx(
+                            &[scripts.always_dep.clone()],
+                            &[op],
+                            &[OutSpec::lock(&scripts.by_name(*y), cap - 1000)],
+                            n,
+                        );
+                        live.push((*y, packed::OutPoint::new(tx.hash(), 0), cap - 1000, false));
                         txs.push(tx);
                     }
                 }
                 Act::Typed(x) => {
-                    if let Some(pos) = live.iter().rposition(|(name, _, _)| name == x) {
-                        let (_, op, cap) = live.remove(pos);
+                    if let Some(pos) = live.iter().rposition(|(name, _, _, typed)| name == x && !typed) {
+                        let (_, op, cap, _) = live.remove(pos);
                         let tx = build_tx(
                             &[scripts.always_dep.clone()],
                             &[op],
@@ -109,7 +125,7 @@ pub(crate) fn extend_chain(chain: &mut Chain, scripts: &Scripts, to: u64, acts: 
                             )],
                             n,
                         );
-                        live.push((*x, packed::OutPoint::new(tx.hash(), 0), cap - 1000));
+                        live.push((*x, packed::OutPoint::new(tx.hash(), 0), cap - 1000, true));
                         txs.push(tx);
                     }
                 }
@@ -118,7 +134,7 @@ pub(crate) fn extend_chain(chain: &mut Chain, scripts: &Scripts, to: u64, acts: 
         let block = chain.push(txs).clone();
         if let Some(x) = mined {
             let cb = block.transaction(0).unwrap();
-            live.push((x, packed::OutPoint::new(cb.hash(), 0), 1000_0000_0000));
+            live.push((x, packed::OutPoint::new(cb.hash(), 0), 1000_0000_0000, false));
         }
     }
 }
